@@ -31,7 +31,7 @@ BIG_VAL = 100000
 
 
 # ------------------------------------------------------------------ cfg generators
-def sync_consts(max_updates=3, in_flight=2, encodes=3):
+def sync_consts(max_updates=3, in_flight=2, encodes=3, split=False):
     return """CONSTANTS
   KeySets = {{1,2},{2,3},{1,2,3}}
   Presents = {{1,2,3},{2}}
@@ -39,12 +39,13 @@ def sync_consts(max_updates=3, in_flight=2, encodes=3):
   MaxInFlight = %d
   MaxEncodes = %d
   Apart = %d
-""" % (max_updates, in_flight, encodes, max_updates)
+  SplitUpdate = %s
+""" % (max_updates, in_flight, encodes, max_updates, "TRUE" if split else "FALSE")
 
 
 def sync_mc_cfg(inv=None, **kw):
     return "SPECIFICATION Spec\n" + sync_consts(**kw) + \
-        "INVARIANTS %s\nCHECK_DEADLOCK FALSE\n" % (inv or "TypeOK PrefixAgreement WireTagged DecodeUsesEncodersState UnknownSeqIsError")
+        "INVARIANTS %s\nCHECK_DEADLOCK FALSE\n" % (inv or "TypeOK PrefixAgreement WireTagged DecodeUsesEncodersState UnknownSeqIsError NoStrandedUpdate")
 
 
 def sync_gen_cfg(depth, **kw):
@@ -159,6 +160,12 @@ def run_sync(ctx, V, ev):
     ev["transitions"] += r.generated
     ev["design_runs"].append({"spec": "CodecSync", "distinct": r.distinct, "generated": r.generated,
                               "violated": r.violated, "wall_s": round(r.wall, 1)})
+    # the named window: Codec.update as its two steps (flag first, push second) racing with
+    # Encode/Decode on another goroutine strands the pushed state. Design-level only: the
+    # property quantifies over inputs, not schedules, so this never decides the verdict.
+    rs = ctx.tlc(AREA, "CodecSync", "w.cfg", files={"w.cfg": sync_mc_cfg(inv="NoStrandedUpdate", max_updates=2, in_flight=2, encodes=2, split=True)},
+                 tag="sync_split", workers=2, timeout=300, expect_violation=True)
+    ev["design_runs"].append({"spec": "CodecSync/as-written SplitUpdate", "windows": {"NoStrandedUpdate": rs.violated}})
     # vacuity: the interesting situations are reachable (each probe must be violated)
     for probe in ("ProbeDecAhead", "ProbeDecBehind", "ProbeLazy"):
         rp = ctx.tlc(AREA, "CodecSync", "p.cfg", files={"p.cfg": sync_mc_cfg(inv=probe, max_updates=2, in_flight=2, encodes=2)},
@@ -224,7 +231,7 @@ def run_layout(ctx, V, ev):
     else:
         plan = [("n2", dict(maxn=2, small_from=9, cfgs=ALL_CFGS, perms=["id", "rev"]), 4),
                 ("n3", dict(maxn=3, small_from=9, cfgs=MAIN_CFGS, perms=["id", "rev", "rot"]), 2),
-                ("n4s", dict(maxn=4, small_from=4, cfgs=["k3f", "k3v", "k13"], perms=["id", "rev", "rot"],
+                ("n4s", dict(maxn=4, small_from=1, cfgs=["k3f", "k3v", "k13"], perms=["id", "rev", "rot"],
                              small=("{0,1}", "{0,1}", "{0,5,6}")), 2)]
     # vacuity of the model: every constructible flag byte and a 3-way merge are reachable
     rp = ctx.tlc(AREA, "CodecLayout", "p.cfg", files={"p.cfg": layout_cfg(3, 9, ["k3f"], ["id"], inv="ProbeMerge3")},
@@ -474,6 +481,71 @@ def run(ctx):
         "Update is called from the goroutine that encodes/decodes (Update racing with processUpdates is not modelled)",
         "http framer pass uses a seeded sample of the abstract inputs and no mutants; frames of 4 series use restricted value sets",
     ])
+
+
+def selftest(ctx):
+    """Binding self-test: corrupt one expected value per specification and require the harness
+    to notice (on the tree under test, which must otherwise pass those lines)."""
+    ok = True
+    # layout: flip the expected flag byte, drop a source index, change an alignment
+    r = ctx.tlc(AREA, "CodecLayout", "l.cfg", files={"l.cfg": layout_cfg(1, 9, ["k3f"], ["id"])}, tag="st_lay", workers=2, timeout=300)
+    hp = ctx.path("st_layout.ndjson")
+    n, _, _ = write_raw_hists(r, hp)
+    lines = [json.loads(ln) for ln in open(hp)]
+    tgt = [ln for ln in lines if ln["id"]["e"]["k3f"]["d"] and ln["id"]["s"][0][1] == 2][0]
+    for name, fn in (("flag byte", lambda e: e.__setitem__("f", e["f"] ^ 8)),
+                     ("meta size", lambda e: e.__setitem__("m", e["m"] + 4)),
+                     ("alignment", lambda e: e["d"][0].__setitem__(1, 6 if e["d"][0][1] != 6 else 5)),
+                     ("samples", lambda e: e["d"][0].__setitem__(4, []))):
+        c = json.loads(json.dumps(tgt))
+        fn(c["id"]["e"]["k3f"])
+        one = ctx.path("st_one.ndjson")
+        with open(one, "w") as f:
+            f.write(json.dumps(c) + "\n")
+        s1, bad, _ = go(ctx, "TestVerifCodecLayout", one, "st_lay_go", env={"VERIF_NCONC": 1})
+        hit = bool(bad)
+        print("selftest layout corrupt %-10s -> %s" % (name, "rejected" if hit else "ACCEPTED"))
+        ok = ok and hit
+    # sync: claim a refused frame decodes / a wrong seq
+    g = ctx.tlc(AREA, "CodecSyncGen", "g.cfg", files={"g.cfg": sync_gen_cfg(5)}, tag="st_sync", workers=2, timeout=300)
+    hs = ctx.path("st_sync.ndjson")
+    write_raw_hists(g, hs)
+    hists = [json.loads(ln) for ln in open(hs)]
+    h = [x for x in hists if any(st["a"] == "dec" and st["kind"] == "error" for st in x)][0]
+    h2 = [x for x in hists if any(st["a"] == "enc" for st in x)][0]
+    for name, hist, fn in (("dec kind", h, lambda hh: [st.__setitem__("kind", "frame") for st in hh if st["a"] == "dec"]),
+                           ("enc seq", h2, lambda hh: [st.__setitem__("seq", st["seq"] + 1) for st in hh if st["a"] == "enc"]),
+                           ("queue len", h2, lambda hh: hh[0]["post"].__setitem__("eq", 7))):
+        c = json.loads(json.dumps(hist))
+        fn(c)
+        one = ctx.path("st_one.ndjson")
+        with open(one, "w") as f:
+            f.write(json.dumps(c) + "\n")
+        s1, bad, _ = go(ctx, "TestVerifCodecSync", one, "st_sync_go")
+        hit = bool(bad)
+        print("selftest sync corrupt %-10s -> %s" % (name, "rejected" if hit else "ACCEPTED"))
+        ok = ok and hit
+    # decode: flip the expected outcome
+    d = ctx.tlc(AREA, "CodecDecode", "g.cfg", files={"g.cfg": decode_cfg(False, emit=True, flags=[0, 63], scens=["static"])},
+                tag="st_dec", workers=2, timeout=300)
+    hd = ctx.path("st_dec.ndjson")
+    write_raw_hists(d, hd)
+    ins = [json.loads(ln) for ln in open(hd)]
+    fr = [x for x in ins if x["out"] == "frame" and x["ns"] == 2][0]
+    er = [x for x in ins if x["out"] == "error" and not x["over"]][0]
+    for name, inp, fn in (("frame->error", fr, lambda x: x.__setitem__("out", "error")),
+                          ("error->frame", er, lambda x: x.__setitem__("out", "frame")),
+                          ("series count", fr, lambda x: x.__setitem__("ns", 1))):
+        c = json.loads(json.dumps(inp))
+        fn(c)
+        one = ctx.path("st_one.ndjson")
+        with open(one, "w") as f:
+            f.write(json.dumps(c) + "\n")
+        s1, bad, _ = go(ctx, "TestVerifCodecDecode", one, "st_dec_go", env={"VERIF_MUT": 0, "VERIF_NCONC": 1})
+        hit = bool([b for b in bad if b.get("r") == "drift"])
+        print("selftest decode corrupt %-12s -> %s" % (name, "rejected" if hit else "ACCEPTED"))
+        ok = ok and hit
+    return 0 if ok else 1
 
 
 def replay(ctx, path):
